@@ -122,16 +122,24 @@ def _quote_text(text):
         for char in text)
 
 
+def _quote_rule(check_str):
+    """Quote a rule, a check string or a legacy list-of-lists rule."""
+    if isinstance(check_str, str):
+        return _quote_text(check_str)
+    if isinstance(check_str, (list, tuple)):
+        # NOTE: a rule in the legacy list-of-lists syntax stays a list: its
+        # entries are not tokenized, so an entry such as "role:project admin"
+        # means something else (nothing, in fact) inside a check string.
+        return '[%s]' % ', '.join(_quote_rule(entry) for entry in check_str)
+    return jsonutils.dumps(check_str)
+
+
 def _format_rule_text(name, check_str):
     """Format a rule as a quoted ``"name": "check string"`` pair.
 
     The text is valid in both a YAML and a JSON policy file.
     """
-    if not isinstance(check_str, str):
-        # A rule in the legacy list-of-lists syntax; write out the equivalent
-        # check string
-        check_str = str(_parser.parse_rule(check_str))
-    return '{}: {}'.format(_quote_text(name), _quote_text(check_str))
+    return '{}: {}'.format(_quote_text(name), _quote_rule(check_str))
 
 
 def _format_help_text(description):
